@@ -9,6 +9,7 @@ CONSTANTS N = 2
   G_SCALAR = TRUE
   G_STMFIRST = TRUE
   G_CHAIN = TRUE
-  G_GLOBDEPTH = FALSE
+  G_GLOBDEPTH = TRUE
+  G_WALKDEPTH = FALSE
 PROPERTY Termination
 CHECK_DEADLOCK FALSE
